@@ -151,6 +151,20 @@ def run(ctx):
             hs2 = [int(h) for h in ginv.hasher.make_hashes(ginv.encode_states(torch.tensor(batch, dtype=torch.int64))).tolist()]
             if hs2 != hs:
                 ctx.violation("property_fails", "a derived copy of the graph hashes equal states differently", {"class": "copy_hash", "graph": gd, "config": cfgd, "batch": batch}, True)
+        # the hash every copy RECORDS for its central state is the hash its hasher gives that state (beam search and MITM compare with it)
+        copies = [("graph", graph)] + ([("with_inverted_generators", ginv)] if ginv is not None else [])
+        try:
+            other = list(rng.choice(verts))
+            copies.append(("modified_copy", graph.modified_copy(graph.definition.with_central_state(other))))
+        except Exception:  # pylint: disable=broad-except
+            pass
+        for cname, gc in copies:
+            rec = [int(v) for v in torch.as_tensor(gc.central_state_hash).reshape(-1).tolist()]
+            cen = [int(v) for v in gc.hasher.make_hashes(gc.encode_states(gc.central_state)).reshape(-1).tolist()]
+            ctx.count("central_state_hash_checked")
+            if rec != cen or gc.hasher is not graph.hasher:
+                ctx.violation("property_fails", f"{cname}: the recorded central_state_hash {rec} is not the hash {cen} its hasher gives the central state "
+                              "(the same state gets different hashes in copies of one graph)", {"class": "copy_central_hash", "copy": cname, "graph": gd, "config": cfgd}, True)
         if not graph.hasher.is_identity and graph.string_encoder is None:
             h = graph.hasher
             for chunk in sorted({1, 2, 3, len(batch), len(batch) + 1}):
